@@ -309,7 +309,8 @@ public:
 
         if (!is_a<Integer>(*self.get_exp()) || !is_a<Add>(*_base)) {
             if (neq(*_base, *self.get_base())) {
-                Add::dict_add_term(d_, multiply, pow(_base, self.get_exp()));
+                // the expanded base can be a number or carry a coefficient
+                _coef_dict_add_term(multiply, pow(_base, self.get_exp()));
             } else {
                 Add::dict_add_term(d_, multiply, self.rcp_from_this());
             }
